@@ -52,6 +52,23 @@ class CFG:
     def succs(self, b):
         return [s for s in self.blocks[b].succ if s is not None]
 
+    def econd(self, b):
+        """effective branch condition of block b: for the block that evaluates the right operand of
+        `A && B` / `A || B` under an if/while/… terminator, clang reports the whole logical expression as
+        the condition; on that block its truth value equals the right operand's."""
+        blk = self.blocks[b]
+        c = blk.cond
+        if c is None:
+            return None
+        fn = self.fn
+        while True:
+            j = fn.strip(c)
+            n = fn.nodes[j]
+            if n['k'] == 'BinaryOperator' and n.get('op') in ('&&', '||') and blk.term != j:
+                c = n['ch'][1]
+                continue
+            return j
+
     def positions(self):
         """{node index: (block, idx)} for statement elements of reachable blocks"""
         if self._pos is None:
